@@ -586,4 +586,20 @@ theorem hrun_inv_from (sched : List Nat) (s : HS) (h : HInv s) :
 
 theorem hinv_init : HInv {} := ⟨fun _ _ => Or.inl rfl, rfl⟩
 
+/-! ### hand-off queue -/
+
+theorem qrun_account (ops : List QOp) (s : QS) :
+    (ops.foldl qstep s).got.filterMap id ++ (ops.foldl qstep s).q =
+      s.got.filterMap id ++ s.q ++ putsOf ops := by
+  induction ops generalizing s with
+  | nil => simp [putsOf]
+  | cons o os ih =>
+    rw [List.foldl_cons, ih]
+    cases o with
+    | put x => simp [qstep, putsOf]
+    | get =>
+      cases hq : s.q with
+      | nil => simp [qstep, hq, putsOf]
+      | cons y r => simp [qstep, hq, putsOf]
+
 end Px.Modes
